@@ -33,10 +33,12 @@ type c09Scen struct {
 	AttachMS int    `json:"attach_ms"` // the client starts at this virtual time
 	Policy   int    `json:"policy"`
 	Bound    int    `json:"bound"`
+	Shard    int    `json:"shard"`
+	Shards   int    `json:"shards"`
 }
 
 func (s c09Scen) name() string {
-	return fmt.Sprintf("C09 {%s} entry=%s word=%s attach=%dms policy=%d bound=%d", s.Cfg, s.Entry, s.Word, s.AttachMS, s.Policy, s.Bound)
+	return fmt.Sprintf("C09 {%s} entry=%s word=%s attach=%dms policy=%d bound=%d shard=%d/%d", s.Cfg, s.Entry, s.Word, s.AttachMS, s.Policy, s.Bound, s.Shard, s.Shards)
 }
 
 // muxTransport serves every request by calling Muxer.Handle in its own thread.
@@ -81,18 +83,18 @@ type c09Written struct {
 }
 
 type c09State struct {
-	sc        c09Scen
-	mi        *muxInst
-	written   [][]c09Written // per track, every unit handed to the muxer (multi-AU writes expanded)
-	c         *Client
-	tr        *muxTransport
-	tracks    []*Track
-	units     [][]delivered
-	onTracksN int
-	waitErr   error
-	waitGot   bool
-	writeErr  error
-	start     time.Time
+	sc         c09Scen
+	mi         *muxInst
+	written    [][]c09Written // per track, every unit handed to the muxer (multi-AU writes expanded)
+	c          *Client
+	tr         *muxTransport
+	tracks     []*Track
+	units      [][]delivered
+	onTracksN  int
+	waitErr    error
+	waitGot    bool
+	writeErr   error
+	start      time.Time
 	writerDone bool
 }
 
@@ -582,10 +584,16 @@ func c09Scens(tier string) []c09Scen {
 							continue
 						}
 						b := bound
-						if tier != "thorough" && pol == 0 && word == "regular" && ai == 0 && entry == "index" && (ci == 0 || ci == 3 || ci == 9) {
+						if tier != "thorough" && pol == 0 && word == "regular" && ai == 0 && entry == "index" && (ci == 0 || ci == 3) {
 							b = 1 // every schedule one deviation away from the canonical one
 						}
-						out = append(out, c09Scen{Cfg: cfg, Entry: entry, Word: word, AttachMS: attach, Policy: pol, Bound: b})
+						shards := 1
+						if b > 0 {
+							shards = 24
+						}
+						for sh := 0; sh < shards; sh++ {
+							out = append(out, c09Scen{Cfg: cfg, Entry: entry, Word: word, AttachMS: attach, Policy: pol, Bound: b, Shard: sh, Shards: shards})
+						}
 					}
 				}
 			}
@@ -599,7 +607,7 @@ func c09List(tier string) []vh.Scenario {
 	for _, s := range c09Scens(tier) {
 		w := 10 * len(s.Cfg.Tracks)
 		if s.Bound > 0 {
-			w *= 300
+			w *= 300 / s.Shards * 10
 		}
 		out = append(out, vh.Scenario{Name: s.name(), Weight: w})
 	}
@@ -629,7 +637,7 @@ func c09Run(c *vh.Ctx) {
 	}
 	for _, sc := range c09Scens(c.Tier) {
 		if sc.name() == c.Scenario {
-			runSchedPolicy(c, sc, c09Harness(sc), sc.Bound, true, sc.Policy, 0, 1)
+			runSchedPolicy(c, sc, c09Harness(sc), sc.Bound, true, sc.Policy, sc.Shard, sc.Shards)
 			return
 		}
 	}
